@@ -18,6 +18,8 @@ def discover():
         if os.path.exists(path):
             mod = importlib.import_module('harness.props.' + pid.lower())
             P = mod.PROP
+            if not getattr(P, 'claimed', True):
+                continue
             CLAIMED[pid] = (P.technique, P.level_text, P.level_note, P.design_ref)
 
 
